@@ -22,7 +22,7 @@ RULE = ('cases = (Y, X, r, correction flag): every pair of set partitions of n<=
         'structure, S=floor(r*n), quota, #strata below quota, S mod #values, flag); non-trivial = quota>0 and (some stratum is '
         'smaller than the quota or S is not a multiple of #values), i.e. the index buffer is only partly written.')
 REQUIRED = {'bits-equal-across-processes': 200, 'groomed-heap-same-bits': 200, 'sample-model-score': 200, 'outside-sample-insensitive': 100,
-            'sampled-rows-model': 50, 'finite': 200, 'near-self-pair-under-sampling': 50}
+            'sampled-rows-model': 50, 'finite': 200, 'near-self-pair-under-sampling': 50, 'ratio-forwarded': 100}
 EXHAUSTIVE_NOTE = {'quick': 'all pairs of set partitions of n<=5 rows x r=k/(n+1), k=1..n, both flags',
                    'thorough': 'all pairs of set partitions of n<=6 rows x r=k/(n+1), k=1..n, both flags'}
 ASSUMPTIONS = ['MALLOC_PERTURB_ reaches the JIT allocations (numba NRT allocates with malloc)', 'red-zone/poisoning tools cannot see in-bounds wrong reads: covered by the row model and the metamorphic monitor',
@@ -45,6 +45,8 @@ def plan(tier, seed):
     k = 8 if tier == 'quick' else 10
     for i in range(k):
         shards.append({'name': 'model-%d' % i, 'fn': 'shard_model', 'args': {'part': i, 'parts': k}, 'death_is_violation': True})
+    for i in range(2 if tier == 'quick' else 4):
+        shards.append({'name': 'dispatch-history-%d' % i, 'fn': 'shard_dispatch', 'args': {'part': i}})
     if tier == 'thorough':
         shards.append({'name': 'valgrind', 'fn': 'shard_valgrind', 'args': {}, 'timeout': 5400})
     return shards
@@ -264,6 +266,43 @@ def shard_model(sh, part, parts):
                 sh.check('sampled-rows-model', sorted(sel) == sorted(rows) and all(0 <= a < n for a in sel) and [int(v) for v in Xs] == [int(X[a]) for a in sel],
                          'sampled-rows!=first-q-per-value', lambda: {'case': i, 'n': n, 'r': r, 'S': S, 'quota': q, 'X': X[:300], 'sampled_rows': sel[:300], 'model_rows': rows[:300]})
     sh.notes['cases_total'] = len(cases)
+
+
+def shard_dispatch(sh, part):
+    """The ratio as the CLI forwards it (importance_estimator.numba_mi / conduct_feature_ranking): freshly allocated vectors of
+    equal size are created and freed in a loop (allocator history), each result must be the bits of the direct estimator call."""
+    import types
+    import numpy as np
+    from outrank.algorithms import importance_estimator as ie
+    est, _ = _est()
+    rng, nprng = sh.rng('disp', part), sh.nprng('disp', part)
+    reps = 400 if sh.tier == 'quick' else 2000
+    n = rng.choice([40, 300])
+    for t in range(reps):
+        if t % 50 == 0:
+            n = rng.choice([40, 300, 800])
+        r = float(np.float32(rng.choice([0.3, 0.5, 0.7, 0.9, 1.0])))
+        heuristic = rng.choice(['MI-numba-randomized', 'MI-numba-3mr'])
+        dtype = rng.choice([np.int8, np.int16, np.int64])
+        a = nprng.integers(0, rng.choice([2, 5, 40]), n).astype(dtype)       # new buffers every round, same size as the previous ones
+        b = nprng.integers(0, rng.choice([2, 3, 7]), n).astype(dtype)
+        if rng.random() < 0.3:
+            a = ((a.astype(np.int64) + b) % 5).astype(dtype)
+        args = types.SimpleNamespace(heuristic=heuristic, mi_stratified_sampling_ratio=r)
+        ok, got = sh.call('ratio-forwarded', 'conduct_feature_ranking', ie.conduct_feature_ranking, a, b, args)
+        if not ok:
+            continue
+        exp = est(np.ascontiguousarray(a, dtype=np.int32), np.ascontiguousarray(b, dtype=np.int32), r, heuristic == 'MI-numba-randomized')
+        sh.check('ratio-forwarded', _bits(got) == _bits(exp), 'dispatched-score!=estimator(these vectors, this ratio)',
+                 lambda: {'round': t, 'n': n, 'ratio': r, 'heuristic': heuristic, 'dtype': str(np.dtype(dtype)), 'got': float(got), 'direct': float(exp), 'a': a[:100], 'b': b[:100]})
+        if rng.random() < 0.3:      # in-place modification between calls
+            a[: n // 2] = 0
+            ok, got = sh.call('ratio-forwarded', 'conduct_feature_ranking', ie.conduct_feature_ranking, a, b, args)
+            if ok:
+                exp = est(np.ascontiguousarray(a, dtype=np.int32), np.ascontiguousarray(b, dtype=np.int32), r, heuristic == 'MI-numba-randomized')
+                sh.check('ratio-forwarded', _bits(got) == _bits(exp), 'dispatched-score!=estimator(these vectors, this ratio)', lambda: {'round': t, 'after_in_place_edit': True, 'got': float(got), 'direct': float(exp)})
+        del a, b
+    sh.case(('dispatch-history', part), True, 'dispatch-history', sample={'rounds': reps})
 
 
 def shard_valgrind(sh):
